@@ -8,9 +8,9 @@ CONSTANTS
   Emit = FALSE
   KnownClasses = {}
   Rich = FALSE
-  Dev_gram = TRUE
   SingleRangeStr = FALSE
   Styles <- CanonOnly
+  Dev_gram <- GramAsIs
   BaseVal <- BaseEdge
 INVARIANTS Refines SegmentationOK MapsOK DomainOK BuildForm
 CHECK_DEADLOCK FALSE
